@@ -33,14 +33,16 @@ ASSETS = os.path.join(os.path.dirname(os.path.abspath(__file__)), "assets")
 
 QSETS = {
     "q3": [[0.01, 0.1, 0.3]],
+    "q3b": [[0.02, 0.15, 0.25]],            # same length as q3, other values
     "q5": [[0.005, 0.02, 0.08, 0.2, 0.4]],
     "q17": [list(np.logspace(-3, -0.3, 17))],
     "xy4": [[0.05, 0.1, -0.05, 0.2], [0.0, 0.05, 0.1, -0.1]],
+    "xy4b": [[0.03, -0.12, 0.07, 0.18], [0.02, 0.04, -0.09, 0.11]],
     "xy9": [[x for x in (-0.1, 0.02, 0.15) for _ in range(3)],
             [y for _ in range(3) for y in (-0.08, 0.01, 0.12)]],
 }
-Q1D = ["q3", "q5", "q17"]
-Q2D = ["xy4", "xy9"]
+Q1D = ["q3", "q3b", "q5", "q17"]
+Q2D = ["xy4", "xy4b", "xy9"]
 
 MODELS = {
     "sphere": "sphere", "cylinder": "cylinder", "core_multi_shell": "core_multi_shell",
@@ -48,6 +50,8 @@ MODELS = {
     "sphere@hayter_msa": "sphere@hayter_msa",
     "sphere+cylinder": "sphere+cylinder", "broad_peak": "broad_peak", "_spherepy": "_spherepy",
     "pyplug": os.path.join(ASSETS, "pyplug.py"), "allpd": os.path.join(ASSETS, "allpd.py"),
+    # a python form factor with a compiled structure factor: PyKernel and DllKernel under one ProductKernel
+    "pyplug@hardsphere": os.path.join(ASSETS, "pyplug.py") + "@hardsphere",
 }
 PY_MODELS = {"broad_peak", "_spherepy", "pyplug"}
 GENERIC = set()       # builtin models added to the pool in the thorough tier
@@ -131,6 +135,12 @@ PARS = {
                 "radius_effective_mode": 2},
         "mode1": {"radius_effective_mode": 1, "thick": 20.0},
     },
+    "pyplug@hardsphere": {
+        "def": {},
+        "pd": {"radius_pd": 0.1, "radius_pd_n": 5, "volfraction": 0.3},
+        "reff2": {"radius_effective_mode": 2, "thick_pd": 0.2, "thick_pd_n": 4},
+        "beta": {"structure_factor_mode": 1, "radius_pd": 0.1, "radius_pd_n": 4},
+    },
     "allpd": {
         "def": {},
         "r50": {"r": 50.0},
@@ -138,6 +148,30 @@ PARS = {
         "empty": {"r": -10.0, "r_pd": 0.1, "r_pd_n": 5},
     },
 }
+def _add_variants():
+    """For every dispersed parameter set add siblings with the *same mesh
+    shape* that differ in exactly one aspect (width, distribution type,
+    nsigma): state keyed by shape alone is then caught."""
+    for model, sets in PARS.items():
+        for key, pars in list(sets.items()):
+            if key in ("bad", "toomany", "empty", "pd140") or "#" in key:
+                continue
+            widths = [k for k in pars if k.endswith("_pd")]
+            if not widths:
+                continue
+            k0 = sorted(widths)[0]
+            w = dict(pars)
+            w[k0] = pars[k0] * 1.5
+            sets[key + "#w"] = w
+            t = dict(pars)
+            t[k0 + "_type"] = "rectangle" if pars.get(k0 + "_type", "gaussian") != "rectangle" else "gaussian"
+            sets[key + "#t"] = t
+            n = dict(pars)
+            n[k0 + "_nsigma"] = 2.0
+            sets[key + "#n"] = n
+
+
+_add_variants()
 CUTOFFS = [0.0, 0.0, 1e-5, 1e-3]
 DATA_KINDS = ["perfect", "pinhole", "slit", "2d", "sesans"]
 SV_MODELS = ["sphere", "cylinder", "core_multi_shell", "sphere@hardsphere", "sphere@hayter_msa", "hardsphere", "broad_peak",
@@ -191,8 +225,8 @@ def prepare(tier):
                            sesans, weights)
     import sasmodels.models  # noqa: F401
     for name in MODELS.values():
-        if not name.endswith(".py"):
-            for part in name.replace("+", "@").split("@"):
+        for part in name.replace("+", "@").split("@"):
+            if not part.endswith(".py"):
                 __import__("sasmodels.models." + part)
     if tier == "thorough":
         # every builtin model joins the pool with generic parameter sets
@@ -690,6 +724,8 @@ def run_history(cfg, keep_events=False):
                     if prev.get("pars") != req.get("pars"):
                         probe("same_kernel_other_pars")
                     pp, cp = prev.get("pars"), req.get("pars")
+                    if pp and cp and pp.split("#")[0] == cp.split("#")[0] and pp != cp:
+                        probe("same_mesh_shape_one_aspect_changed")
                     if pp and cp and ("pd" in pp or "empty" in pp) and cp in ("def", "big", "thin"):
                         probe("mono_after_poly_same_object")
                     if pp and cp and (pp == "mag") != (cp == "mag"):
@@ -796,7 +832,7 @@ def gen_history(w, n_ops):
         keys = sorted(PARS[model])
         two_d = k["q"] in Q2D
         if not two_d:
-            keys = [x for x in keys if x != "pd4"]
+            keys = [x for x in keys if x.split("#")[0] != "pd4"]
         pars = w.choice(keys)
         fn = "Fq" if (model in FQ_MODELS and w.random() < 0.3) else "Iq"
         if model in ("sphere@hardsphere", "sphere@hayter_msa", "sphere+cylinder") and w.random() < 0.5:
@@ -853,7 +889,7 @@ def gen_history(w, n_ops):
             live = [x for x in directs if x["id"] not in dead]
             if live:
                 d = w.choice(live)
-                keys = [x for x in sorted(PARS[d["model"]]) if x not in ("pd4", "pd140") and
+                keys = [x for x in sorted(PARS[d["model"]]) if x.split("#")[0] not in ("pd4", "pd140") and
                         not (d["data"] != "2d" and x == "mag")]
                 ops.append({"op": "direct_call", "d": d["id"], "model": d["model"], "pars": w.choice(keys)})
                 if w.random() < 0.3:
@@ -889,7 +925,7 @@ def gen_history(w, n_ops):
             ops.append({"op": "sv_reload", "model": w.choice(["pyplug", "allpd"])})
         else:
             name = w.choice(["sphere", "cylinder", "sphere@hardsphere", "pyplug", "allpd", "sphere+cylinder"])
-            keys = [k for k in sorted(PARS[name]) if k not in ("pd4", "pd140", "mag", "mode", "mode1", "pd2", "reff")]
+            keys = [k for k in sorted(PARS[name]) if k.split("#")[0] not in ("pd4", "pd140", "mag", "mode", "mode1", "pd2", "reff")]
             two = name in ("sphere", "cylinder") and w.random() < 0.3
             ops.append({"op": "conv", "model": name, "fnc": "Iqxy" if two else "Iq", "q": w.choice(Q2D if two else Q1D),
                         "pars": w.choice(keys), "res": None if two else w.choice([None, None, "dq", "slit"])})
@@ -915,7 +951,8 @@ def sweep_configs(tier):
     models = sorted(m for m in MODELS if m not in GENERIC) if tier != "quick" else \
         ["sphere", "cylinder", "sphere@hardsphere", "sphere@hayter_msa", "_spherepy", "pyplug", "allpd"]
     for model in models:
-        keys = [k for k in sorted(PARS[model]) if k not in ("pd4", "bad", "toomany")]
+        keys = [k for k in sorted(PARS[model]) if k.split("#")[0] not in ("pd4", "bad", "toomany")
+                and not k.endswith(("#t", "#n"))]
         for fn in (("Iq", "Fq") if model in FQ_MODELS else ("Iq",)):
             ops = [{"op": "load", "id": "m1", "model": model, "dtype": "double"},
                    {"op": "make_kernel", "id": "k1", "m": "m1", "q": "q3", "model": model}]
@@ -981,7 +1018,8 @@ MINIMISE_TOTAL = 300
 EXPECTED_PROBES = ["same_kernel_other_pars", "mono_after_poly_same_object", "magnetic_toggle_same_object",
                    "eval_after_failed_eval", "py_kernel_second_call", "empty_mesh_after_nonempty",
                    "clone_after_setParam", "two_models_share_process", "callFq_with_mode_key",
-                   "identical_request_repeated", "fresh_process_run", "array_distribution_set", "threads_lazy_build_contended",
+                   "identical_request_repeated", "fresh_process_run", "array_distribution_set",
+                   "same_mesh_shape_one_aspect_changed", "threads_lazy_build_contended",
                    "threads_lock_contended"]
 
 
